@@ -7,8 +7,10 @@ import (
 	"crypto/ed25519"
 	"crypto/sha512"
 	"fmt"
+	"github.com/oasisprotocol/oasis-core/go/common/entity"
 	"github.com/oasisprotocol/oasis-core/go/common/version"
 	"math/rand"
+	"sort"
 	"strings"
 	"time"
 
@@ -47,6 +49,7 @@ type cnTxSpec struct {
 	Slash    string `json:"slash,omitempty"`    // regruntime: "<amount>:<runtime share % for equivocation>:<runtime share % for incorrect results>" (per-runtime slashing)
 	InMsgs   string `json:"inmsgs,omitempty"`   // regruntime: "<max incoming messages>:<minimum incoming message fee>"
 	MsgFee   int64  `json:"msgfee,omitempty"`   // submitmsg: the fee sent into the runtime with the message (spec.Amount = tokens)
+	Nodes    string `json:"nodes,omitempty"`    // regentity: the node list of the descriptor, "N0,N2" (spec.Entity names the entity: E<i> or a user account)
 	VAct     string `json:"vact,omitempty"`     // vcreate: "<admins>/<threshold>;<suspenders>/<threshold>"; vauth: action descriptor (cons_vault.go parseAction)
 	Entity   string `json:"entity,omitempty"`   // regnode: register the node under this entity instead of its own
 	Sched    string `json:"sched,omitempty"`    // rhcommit: the scheduler whose proposal the commitment is for
@@ -134,7 +137,7 @@ func (n *cnNet) buildTx(spec *cnTxSpec, rng *rand.Rand) ([]byte, error) {
 		return nil, fmt.Errorf("unknown signer %s", spec.Signer)
 	}
 	var to staking.Address
-	if spec.To != "" && spec.Kind != "unfreeze" && spec.Kind != "regruntime" && spec.Kind != "rhcommit" && spec.Kind != "submitmsg" && spec.Kind != "vauth" && spec.Kind != "vcancel" {
+	if spec.To != "" && spec.Kind != "unfreeze" && spec.Kind != "regruntime" && spec.Kind != "rhcommit" && spec.Kind != "rhevidence" && spec.Kind != "submitmsg" && spec.Kind != "vauth" && spec.Kind != "vcancel" {
 		switch spec.To {
 		case "POOL":
 			to = staking.CommonPoolAddress
@@ -318,6 +321,30 @@ func (n *cnNet) buildTx(spec *cnTxSpec, rng *rand.Rand) ([]byte, error) {
 	case "submitmsg":
 		// spec.To names the runtime; the tokens and the message fee are moved to the runtime's account, the message is queued
 		tx = roothash.NewSubmitMsgTx(spec.Nonce, fee, &roothash.SubmitMsg{ID: runtimeID(spec.To), Tag: uint64(spec.Nonce), Fee: qq(spec.MsgFee), Tokens: qq(spec.Amount), Data: []byte("m")})
+	case "rhevidence":
+		// equivocation evidence against spec.Node in runtime spec.To for round spec.Amount; spec.Vote names the two commitments:
+		// AB (two results), AF (a result and a failure indication), AA (the same commitment twice: no equivocation),
+		// XN (commitments of two different nodes: not evidence against one node)
+		pair := spec.Vote
+		if len(pair) != 2 {
+			return nil, fmt.Errorf("bad evidence pair %q", pair)
+		}
+		nodeB, v1, v2 := spec.Node, string(pair[0]), string(pair[1])
+		if pair == "XN" {
+			v1, v2 = "A", "B"
+			var ni int
+			fmt.Sscanf(spec.Node, "N%d", &ni)
+			nodeB = fmt.Sprintf("N%d", (ni+1)%len(n.vals))
+		}
+		ca, err := n.rhCommitment(spec.To, spec.Amount, n.rhPrev[spec.To], spec.Node, spec.Sched, v1)
+		if err != nil {
+			return nil, err
+		}
+		cb, err := n.rhCommitment(spec.To, spec.Amount, n.rhPrev[spec.To], nodeB, spec.Sched, v2)
+		if err != nil {
+			return nil, err
+		}
+		tx = roothash.NewEvidenceTx(spec.Nonce, fee, &roothash.Evidence{ID: runtimeID(spec.To), EquivocationExecutor: &roothash.EquivocationExecutorEvidence{CommitA: *ca, CommitB: *cb}})
 	case "rhcommit":
 		// spec.To names the runtime, spec.Node the committing node, spec.Amount the round
 		ec, err := n.rhCommitment(spec.To, spec.Amount, n.rhPrev[spec.To], spec.Node, spec.Sched, spec.Vote)
@@ -386,6 +413,29 @@ func (n *cnNet) buildTx(spec *cnTxSpec, rng *rand.Rand) ([]byte, error) {
 		if tx, err = n.buildVaultTx(spec, fee); err != nil {
 			return nil, err
 		}
+	case "regentity":
+		// the descriptor of spec.Entity (an entity of the genesis or a user account that runs an entity) with the node list
+		// spec.Nodes, signed by that entity's key - or, for validity "badentsig", by the transaction signer's key
+		ea, ok := n.account(spec.Entity)
+		if !ok {
+			return nil, fmt.Errorf("unknown entity %s", spec.Entity)
+		}
+		ent := &entity.Entity{Versioned: cbor.NewVersioned(entity.LatestDescriptorVersion), ID: ea.signer.Public()}
+		for _, nm := range strings.Split(spec.Nodes, ",") {
+			var idx int
+			if _, err := fmt.Sscanf(nm, "N%d", &idx); err == nil && idx < len(n.vals) {
+				ent.Nodes = append(ent.Nodes, n.vals[idx].ident.NodeSigner.Public())
+			}
+		}
+		es := ea.signer
+		if spec.Validity == "badentsig" {
+			es = acct.signer
+		}
+		se, err := entity.SignEntity(es, registry.RegisterEntitySignatureContext, ent)
+		if err != nil {
+			return nil, err
+		}
+		tx = registry.NewRegisterEntityTx(spec.Nonce, fee, se)
 	case "deregentity":
 		tx = registry.NewDeregisterEntityTx(spec.Nonce, fee)
 	case "unfreeze":
@@ -561,4 +611,94 @@ func rotateKeys(cur map[string]signature.Signer, how string, rng *rand.Rand) map
 		out[a], out[b] = cur[b], cur[a]
 	}
 	return out
+}
+
+// mutateBody re-issues an authentic transaction with ONE structural change in its CBOR body - a map entry dropped, a value replaced
+// by null / an empty map / an empty array / an empty byte string / a number - correctly signed by the same account with the same
+// nonce and fee (anybody can sign whatever body they like): the handlers' own validation stands between it and the state.
+func (n *cnNet) mutateBody(raw []byte, rng *rand.Rand) ([]byte, *cnTxSpec, bool) {
+	var st transaction.SignedTransaction
+	if cbor.Unmarshal(raw, &st) != nil {
+		return nil, nil, false
+	}
+	var tx transaction.Transaction
+	if cbor.Unmarshal(st.Blob, &tx) != nil || len(tx.Body) == 0 {
+		return nil, nil, false
+	}
+	var who *cnAccount
+	for _, a := range append(n.accounts(), n.nodeAccounts()...) {
+		if a.signer.Public().Equal(st.Signature.PublicKey) {
+			aa := a
+			who = &aa
+		}
+	}
+	if who == nil {
+		return nil, nil, false
+	}
+	var tree any
+	if cbor.Unmarshal(tx.Body, &tree) != nil {
+		return nil, nil, false
+	}
+	// collect the positions: every map entry and array element, at any depth
+	type pos struct {
+		m   map[any]any
+		key any
+		arr []any
+		idx int
+	}
+	var all []pos
+	var walk func(v any)
+	walk = func(v any) {
+		switch t := v.(type) {
+		case map[any]any:
+			keys := make([]string, 0, len(t))
+			byS := map[string]any{}
+			for k := range t {
+				ks := fmt.Sprint(k)
+				keys = append(keys, ks)
+				byS[ks] = k
+			}
+			sort.Strings(keys)
+			for _, ks := range keys {
+				all = append(all, pos{m: t, key: byS[ks]})
+				walk(t[byS[ks]])
+			}
+		case []any:
+			for i := range t {
+				all = append(all, pos{arr: t, idx: i})
+				walk(t[i])
+			}
+		}
+	}
+	walk(tree)
+	if len(all) == 0 {
+		return nil, nil, false
+	}
+	p := all[rng.Intn(len(all))]
+	repl := []any{nil, map[any]any{}, []any{}, []byte{}, uint64(0), uint64(1) << 63, "x"}
+	what := "drop"
+	if p.m != nil && rng.Intn(3) == 0 {
+		delete(p.m, p.key)
+	} else {
+		r := repl[rng.Intn(len(repl))]
+		what = fmt.Sprintf("replace:%T", r)
+		if p.m != nil {
+			p.m[p.key] = r
+		} else {
+			p.arr[p.idx] = r
+		}
+	}
+	tx.Body = cbor.Marshal(tree)
+	blob := cbor.Marshal(&tx)
+	sig := signRaw(who.signer, rawContext("oasis-core/consensus: tx", n.chainCtx), blob)
+	var out transaction.SignedTransaction
+	out.Blob = blob
+	out.Signature.PublicKey = who.signer.Public()
+	copy(out.Signature.Signature[:], sig)
+	fee := int64(0)
+	gas := uint64(0)
+	if tx.Fee != nil {
+		fee, gas = qi(&tx.Fee.Amount), uint64(tx.Fee.Gas)
+	}
+	return cbor.Marshal(out), &cnTxSpec{Kind: "mutated", Signer: who.name, Gov: string(tx.Method), VAct: what, Nonce: tx.Nonce, Fee: fee, Gas: gas, Validity: "mutbody"}, true
 }
